@@ -137,7 +137,8 @@ def pose_action(B):
     B.decls['pi'] = 'Real'
     for a in ang:
         B.libm('sin', [a], 'true'); B.libm('cos', [a], 'true')
-    gl = [app('<', '(- (/ pi 2.0))', ang[1]), app('<', ang[1], '(/ pi 2.0)'), B.axiom('cos_positive_open_half', ang[1])]
+    # the property's quantifier: attitude away from gimbal lock by 1e-3 rad
+    gl = [app('<=', '(- (- (/ pi 2.0) 0.001))', ang[1]), app('<=', ang[1], '(- (/ pi 2.0) 0.001)'), B.axiom('cos_positive_open_half', ang[1]), B.axiom('away_from_half_pi', ang[1])]
     PI2 = '(* 2.0 pi)'
     def trunc_q(v):
         q = app('/', v, PI2)
